@@ -17,6 +17,16 @@ CLAIMS = {
         note=NOTE_COMMON + "Highlights are not modelled; delimiters are single characters.",
         technique="Lean 4 proof (induction over the string) + differential correspondence model vs implementation",
         design="DESIGN.md §5 C06"),
+    'C13': dict(
+        text="Lean theorems over the model of datatype_factory / strptime / Decimal / int for every string: TOLERANT is total and keeps rejected text "
+             "verbatim, STRICT raises only ValueError/MaxLengthReached, the max-length clause, DT length discipline, SI rejection of non-digits and "
+             "SI round trip on 0..999 by kernel evaluation. The clause 'STRICT acceptance = HL7 lexical definition' is FALSE of the code (finding D10, "
+             "seven kernel-checked witnesses, one per root cause); outside those causes it is decided by the exhaustive-grid correspondence plus an "
+             "independent HL7 lexical oracle run on the implementation (partial: not a theorem).",
+        note=NOTE_COMMON + "Model domain excludes '_' digit separators, non-ASCII digits and Decimal's inf/nan (answered Unsupported, reported as finding D10i/D10e "
+             "by the implementation-side oracle); no newline inside DT/TM/DTM values.",
+        technique="Lean 4 proof (case analysis over the model, decide +kernel on finite domains and generated tables) + exhaustive-grid differential correspondence",
+        design="DESIGN.md §5 C13"),
 }
 
 PENDING = {}
